@@ -6,7 +6,8 @@ From Coq Require Import String.
 From Coq Require Import List Arith ZArith.
 Import ListNotations.
 From YP Require Import Base.Str Term.Term Unify.Unify Unify.UnifyGen Lang.Ast Comp.IR Comp.CompileClause Sem.Machine
-  Engine.GenMachine Engine.Restore Engine.RunGen Engine.IRMachine Engine.QueryFacts Engine.Refine Engine.RefineCompiled Engine.RunMachine.
+  Sem.Native Engine.GenMachine Engine.Restore Engine.RunGen Engine.IRMachine Engine.QueryFacts Engine.Refine Engine.RefineCompiled
+  Engine.RefineNative Engine.RefineExc Engine.RefineRaising Engine.RunMachine.
 
 (* A unification generator created under ANY heap h and driven by ANY sequence of
    __next__ / close() (= drop) operations:
@@ -201,6 +202,113 @@ Theorem C03_queryF_nofacts : forall p n name args s, queryF p (fun _ _ => []) n 
 Proof. exact queryF_nofacts. Qed.
 Print Assumptions C03_queryF_nofacts.
 
+(* ---------------------------------------------------------------------------------------------------------------
+   machine_refines_nquery: ALL of YP.query.  The machine program RefineNative.wprog runs the dynamic facts of name/arity first
+   (each against a copy with new variables), never calls an API name, then eval_context.get('<name>_<k>',
+   eval_context.get('<name>_n')): a registered Python predicate (fixed key, before the compiled function; variadic key,
+   after the builtins except for call/N), the generator function of the compiled program, a builtin.  A registered Python
+   predicate is ARBITRARY machine code (ucode) on the machine side and its answer function (Sem/Native.nfun: answers, then
+   normal end or an exception after j answers) on the big-step side; `orealizes`: the generator object of the code yields the
+   answers of the function and ends as it says.  Then, for every compiled program, fact database, table of registered
+   predicates, query, wf heap, recursion limit d and ABANDONMENT POINT k: the generator object of the query resumed at most k
+   times yields exactly the first k answer stores of Sem/Native.nquery - the big-step engine of C20 and of evaluate_bounded
+   (C17) -, ends as nquery says (normally / with the exception), and leaves the initial heap. *)
+Theorem C03_machine_refines_nquery : forall p ir, compile_program p = Some ir ->
+  forall (dyn : str -> nat -> list frow) (ufix : str -> nat -> option ucode) (uvar : str -> option ucode)
+         (ffix : str -> nat -> option nfun) (fvar : str -> option nfun),
+  (forall name k, orealizes ir dyn ufix uvar (ufix name k) (ffix name k)) ->
+  (forall name, orealizes ir dyn ufix uvar (uvar name) (fvar name)) ->
+  forall d name args nx h k, wf h ->
+  exists N hf itf, forall n, N <= n ->
+    w_nexts ir dyn ufix uvar n d k h (w_query ir dyn ufix uvar name args nx) =
+    Some (hf, itf, map sto (firstn k (fst (nquery d (mkw ir ffix fvar dyn) name args (mkst h nx)))),
+          if Nat.leb k (length (fst (nquery d (mkw ir ffix fvar dyn) name args (mkst h nx)))) then RYield
+          else rend (snd (nquery d (mkw ir ffix fvar dyn) name args (mkst h nx))))
+    /\ (length (fst (nquery d (mkw ir ffix fvar dyn) name args (mkst h nx))) < k -> hf = h).
+Proof. exact compiled_machine_refines_nquery. Qed.
+Print Assumptions C03_machine_refines_nquery.
+
+(* ... for whatever fuel the machine returns a value at (=> a rerun gives the same sequence) *)
+Theorem C03_machine_refines_nquery_fuel : forall p ir, compile_program p = Some ir ->
+  forall (dyn : str -> nat -> list frow) (ufix : str -> nat -> option ucode) (uvar : str -> option ucode)
+         (ffix : str -> nat -> option nfun) (fvar : str -> option nfun),
+  (forall name k, orealizes ir dyn ufix uvar (ufix name k) (ffix name k)) ->
+  (forall name, orealizes ir dyn ufix uvar (uvar name) (fvar name)) ->
+  forall d name args nx h k n hf itf ys r, wf h ->
+  w_nexts ir dyn ufix uvar n d k h (w_query ir dyn ufix uvar name args nx) = Some (hf, itf, ys, r) ->
+  ys = map sto (firstn k (fst (nquery d (mkw ir ffix fvar dyn) name args (mkst h nx)))) /\
+  r = (if Nat.leb k (length (fst (nquery d (mkw ir ffix fvar dyn) name args (mkst h nx)))) then RYield
+       else rend (snd (nquery d (mkw ir ffix fvar dyn) name args (mkst h nx)))).
+Proof. exact compiled_machine_refines_nquery_fuel. Qed.
+Print Assumptions C03_machine_refines_nquery_fuel.
+
+(* restoration for this machine program, with NO hypothesis on the registered predicates (arbitrary code): close / drop /
+   throw / exhaustion / exception give back the initial heap *)
+Theorem C03_world_query_restores :
+  forall (ir : ir_program) (dyn : str -> nat -> list frow) (ufix : str -> nat -> option ucode) (uvar : str -> option ucode)
+         n d k h name args nx hf itf ys r,
+  w_nexts ir dyn ufix uvar n d k h (w_query ir dyn ufix uvar name args nx) = Some (hf, itf, ys, r) ->
+  w_iclose hf itf = h
+  /\ ithrow lclose hf itf = (h, IDone, RRaise)
+  /\ (r <> RYield -> hf = h)
+  /\ Forall (fun y => exists nw, y = nw ++ h) ys.
+Proof. exact world_query_restores. Qed.
+Print Assumptions C03_world_query_restores.
+
+(* the hypothesis is inhabited by the Python predicates of property C20 - `for row in rows: for _ in unify_arrays(args,
+   row): yield v`, optionally raising after the last row -: the machine code of that text realizes the answer function
+   native_rows (Sem/Native.v) *)
+Theorem C03_pyrows_realizes : forall ir dyn ufix uvar rows vals raises,
+  realizes ir dyn ufix uvar (pyrows rows raises) (pyrows_fun rows vals raises).
+Proof. exact pyrows_realizes. Qed.
+Print Assumptions C03_pyrows_realizes.
+
+(* ... and by the RAISING predicate of C20's exception_passthrough, Native.raising f j = "raises instead of delivering its answer
+   number j" (every point at which a user predicate raises): its text `n = 0; for row in rows: for _ in unify_arrays(args,
+   row): if n == j: raise E; yield v; n += 1` as machine code (pyrows_at, the counter is frame-local state) realizes
+   raising (native_rows rows vals) j - so the two theorems above and below cover the worlds `with_raising_fix` of C20 *)
+Theorem C03_raising_predicate_realized : forall ir dyn ufix uvar rows vals j,
+  realizes ir dyn ufix uvar (pyrows_at rows j) (raising (native_rows rows vals) j).
+Proof. exact pyrows_at_realizes. Qed.
+Print Assumptions C03_raising_predicate_realized.
+
+(* exception_passthrough at machine level.  NE.nqueryE = nquery carrying the exception OBJECT (XPy tag = the object a
+   registered Python predicate raised).  If the query ends with the object e after the answers xs, the consumer of the
+   machine's generator object receives exactly xs (each with exactly that answer's bindings), the next resumption raises, the
+   heap is the initial one when the exception arrives, and e has every property that the engine's own exceptions and the
+   objects raised by the registered predicates have (e.g. Q e := e = XPy tag \/ engine_exn e): it is the object that was
+   raised.  (The machine's RRaise carries no payload: it cannot catch or replace an exception - see Engine/RefineExc.v.) *)
+Theorem C03_machine_exception_passthrough : forall p ir, compile_program p = Some ir ->
+  forall (dyn : str -> nat -> list frow) (ufix : str -> nat -> option ucode) (uvar : str -> option ucode)
+         (efix : str -> nat -> option NE.nfunE) (evar : str -> option NE.nfunE),
+  (forall name k, orealizes ir dyn ufix uvar (ufix name k) (option_map NE.erf (efix name k))) ->
+  (forall name, orealizes ir dyn ufix uvar (uvar name) (option_map NE.erf (evar name))) ->
+  forall d name args nx h xs e, wf h ->
+  NE.nqueryE d (mkwE ir efix evar dyn) name args (mkst h nx) = (xs, Some e) ->
+  (exists N itf, forall n, N <= n ->
+     w_nexts ir dyn ufix uvar n d (S (length xs)) h (w_query ir dyn ufix uvar name args nx) =
+     Some (h, itf, map sto xs, RRaise))
+  /\ (forall Q : NE.exn -> Prop, Q NE.XDepth -> Q NE.XUnify -> Q NE.XGoal -> Q NE.XCode ->
+        (forall name k f args s e, efix name k = Some f -> snd (f args s) = Some e -> Q e) ->
+        (forall name f args s e, evar name = Some f -> snd (f args s) = Some e -> Q e) -> Q e).
+Proof. exact machine_exception_passthrough. Qed.
+Print Assumptions C03_machine_exception_passthrough.
+
+Theorem C03_machine_refines_nqueryE : forall p ir, compile_program p = Some ir ->
+  forall (dyn : str -> nat -> list frow) (ufix : str -> nat -> option ucode) (uvar : str -> option ucode)
+         (efix : str -> nat -> option NE.nfunE) (evar : str -> option NE.nfunE),
+  (forall name k, orealizes ir dyn ufix uvar (ufix name k) (option_map NE.erf (efix name k))) ->
+  (forall name, orealizes ir dyn ufix uvar (uvar name) (option_map NE.erf (evar name))) ->
+  forall d name args nx h k, wf h ->
+  exists N hf itf, forall n, N <= n ->
+    w_nexts ir dyn ufix uvar n d k h (w_query ir dyn ufix uvar name args nx) =
+    Some (hf, itf, map sto (firstn k (fst (NE.nqueryE d (mkwE ir efix evar dyn) name args (mkst h nx)))),
+          if Nat.leb k (length (fst (NE.nqueryE d (mkwE ir efix evar dyn) name args (mkst h nx)))) then RYield
+          else rendE (snd (NE.nqueryE d (mkwE ir efix evar dyn) name args (mkst h nx))))
+    /\ (length (fst (NE.nqueryE d (mkwE ir efix evar dyn) name args (mkst h nx))) < k -> hf = h).
+Proof. exact machine_refines_nqueryE. Qed.
+Print Assumptions C03_machine_refines_nqueryE.
+
 (* non-vacuity: a query three frames deep yields an answer with two new bindings on top of a
    non-empty heap, and asking for the next answer makes a user predicate raise; the heap is then
    the initial one *)
@@ -216,3 +324,14 @@ Proof. vm_compute. reflexivity. Qed.
 
 Example C03_refines_facts_nonvacuous : refine_example_facts = true.
 Proof. vm_compute. reflexivity. Qed.
+
+(* non-vacuity of machine_refines_nquery / machine_exception_passthrough:  t(X,Y) :- pyq(X), d0(Y).  with the dynamic facts
+   d0(f(_)). d0([]). and the Python predicate pyq/1 = rows a, c, then `raise E` (E = XPy 7): the table satisfies the
+   hypotheses (ex_table_ok), the machine yields the four answer stores of nqueryE, then raises with the empty heap, and
+   nqueryE ends with exactly XPy 7 *)
+Example C03_refines_native_nonvacuous :
+  (forall ir dyn name k, orealizes ir dyn ex_ufix novar (ex_ufix name k) (option_map NE.erf (ex_efix name k)))
+  /\ refine_example_native = true
+  /\ (forall ir dyn name k, orealizes ir dyn ex_ufix_at novar (ex_ufix_at name k) (ex_ffix_at name k))
+  /\ refine_example_raising = true.      (* pyq raises instead of its answer number 1: two answers, then the exception *)
+Proof. split; [exact ex_table_ok|split; [vm_compute; reflexivity|split; [exact ex_table_at_ok|vm_compute; reflexivity]]]. Qed.
